@@ -11,44 +11,57 @@
 (*   agree     : set of descriptions on which generations 0 and 1 returned *)
 (*               the same tree or rejected at the same position            *)
 (*   differ    : set of descriptions on which they did not                 *)
+(*   redo      : digests obtained by compiling grammar.txt AGAIN with the  *)
+(*               same installed generation (in the same process, after     *)
+(*               other grammars - generate_parser.py itself compiles twice *)
+(*               in one process)                                           *)
 (* Actions: Generate(sha) (compile grammar.txt with the installed parser), *)
-(* SelfParse(g, ok), Install(g), Compare(d, same).                         *)
+(* SelfParse(g, ok), Install(g), Compare(d, same), Regenerate(sha).        *)
 (* The property is the conjunction of the invariants below at the end of   *)
 (* the history  Generate . SelfParse(1) . Compare* . Install(1) . Generate.*)
 (* Trace_Bootstrap replays the recorded history of a real bootstrap run.   *)
 (***************************************************************************)
 EXTENDS Naturals, FiniteSets
 
-VARIABLES installed, src, selfok, agree, differ
-bvars == <<installed, src, selfok, agree, differ>>
+VARIABLES installed, src, selfok, agree, differ, redo
+bvars == <<installed, src, selfok, agree, differ, redo>>
 
 BInit == installed = 0 /\ src = [g \in 0..2 |-> IF g = 0 THEN 1 ELSE 0] /\ selfok = {} /\ agree = {} /\ differ = {}
+         /\ redo = [g \in 1..2 |-> {}]
 
 Generate(sha) ==
     /\ installed < 2 /\ sha # 0
     /\ src[installed + 1] = 0
     /\ src' = [src EXCEPT ![installed + 1] = sha]
-    /\ UNCHANGED <<installed, selfok, agree, differ>>
+    /\ UNCHANGED <<installed, selfok, agree, differ, redo>>
 
 SelfParse(g, ok) ==
     /\ src[g] # 0
     /\ selfok' = IF ok THEN selfok \cup {g} ELSE selfok
-    /\ UNCHANGED <<installed, src, agree, differ>>
+    /\ UNCHANGED <<installed, src, agree, differ, redo>>
 
 Install(g) ==
     /\ src[g] # 0 /\ g = installed + 1
     /\ g \in selfok                    \* generate_parser.py only installs a parser that describes itself
     /\ installed' = g
-    /\ UNCHANGED <<src, selfok, agree, differ>>
+    /\ UNCHANGED <<src, selfok, agree, differ, redo>>
 
 Compare(d, same) ==
     /\ src[1] # 0
     /\ agree' = IF same THEN agree \cup {d} ELSE agree
     /\ differ' = IF same THEN differ ELSE differ \cup {d}
-    /\ UNCHANGED <<installed, src, selfok>>
+    /\ UNCHANGED <<installed, src, selfok, redo>>
+
+Regenerate(sha) ==
+    /\ installed < 2 /\ sha # 0
+    /\ src[installed + 1] # 0
+    /\ redo' = [redo EXCEPT ![installed + 1] = @ \cup {sha}]
+    /\ UNCHANGED <<installed, src, selfok, agree, differ>>
 
 (* the property, once generation 2 exists *)
 FixedPoint   == src[2] # 0 => src[2] = src[1]
 SelfHosting  == src[2] # 0 => 1 \in selfok
 SameLanguage == differ = {}
+\* "regenerating ... reproduces its source text exactly": the text is a function of grammar.txt and the installed parser
+Deterministic == \A g \in 1..2 : \A x \in redo[g] : x = src[g]
 =============================================================================
